@@ -121,6 +121,16 @@ pub fn json_node(tree: &T, s: &mut Stream) -> String {
     }
 }
 
+/// how deeply the JSON DSL text of a tree nests objects (a player node adds 3 levels, a chance
+/// node 4); serde_json refuses documents nested deeper than 128
+pub fn json_nesting(tree: &T) -> usize {
+    match tree {
+        T::Term(_) => 1,
+        T::Chance(_, outs) => 4 + outs.iter().map(|(_, t)| json_nesting(t)).max().unwrap_or(0),
+        T::Player(_, _, acts) => 3 + acts.iter().map(|(_, t)| json_nesting(t)).max().unwrap_or(0),
+    }
+}
+
 pub fn shuffle<X>(s: &mut Stream, items: &mut Vec<X>) {
     let n = items.len();
     for i in (1..n).rev() {
